@@ -618,6 +618,21 @@ func (j *jtCtx) classify(e ast.Expr, depth int) (jtClass, string) {
 				if ent, ok := jtParamTable[j.fn.Obj.Name()+"."+x.Name]; ok {
 					return ent.cls, "reviewed parameter: " + ent.why
 				}
+				// the parameter of a local closure that does not escape: the class its arguments have at every call
+				if args, isCl, ok := closureParamArgs(j.c.Program, info, j.fn.Decl, o); isCl && ok && len(args) > 0 && depth < 3 {
+					cls := jtUnknown
+					for i, a := range args {
+						ca, _ := j.classify(a, depth+1)
+						if ca == jtUnknown || (i > 0 && ca != cls) {
+							return jtUnknown, "parameter " + x.Name + " of a local closure receives " + exprStr(a) + ", which has no (or another) class"
+						}
+						cls = ca
+					}
+					// it must not be re-assigned inside the closure
+					if len(defs) == 0 {
+						return cls, fmt.Sprintf("parameter of a local closure; all %d calls pass %s", len(args), cls)
+					}
+				}
 				return jtUnknown, "parameter " + x.Name + " of " + j.fn.Obj.Name() + " has no reviewed class"
 			}
 			if len(defs) > 0 && depth < 3 {
